@@ -2,9 +2,27 @@
 PY = "/venv/bin/python"
 
 REGISTRY = {
+    "C16": {
+        "modules": ["ext_hal", "precise_delay"],
+        "level": "proof",
+        "level_text": "Every method of NotifierDelay is verified against contracts that state the t0+k*P grid with ghost fields (t0, k): "
+                      "object invariant 'expiry == t0+(k+1)P == HAL alarm' is proved inductive over __init__/wait/free/__exit__, and the "
+                      "property clauses are postconditions of wait()/free() for every period >= 1 ms and every entry clock value.",
+        "level_note": "Assumed (external) HAL contracts: waitForNotifierAlarm returns at max(now, alarm); updateNotifierAlarm stores the alarm; "
+                      "handles are live until cleanNotifier. Integer microseconds are exact; int(period*1e6) is taken over the reals.",
+        "design_ref": "DESIGN.md section 5 C16",
+        "replay": [PY, "native/replay_c16.py"],
+        "standins": {"quick": {"bounded: real NotifierDelay on a fake HAL implementing the assumed contract, body-duration patterns": [PY, "native/replay_c16.py"]}},
+    },
     "C20": {
         "modules": ["crc7"],
         "level": "proof",
+        "level_text": "Unbounded proof that the real crc7() body computes the recursive bit-serial CRC-7 spec for every byte sequence "
+                      "(loop invariant + table lemma over the list literal in the source), plus complete bit-vector lemmas for linearity "
+                      "and the single-bit / double-bit(<127) / burst(<=7) detection corollaries.",
+        "level_note": "Assumes message elements are ints in [0,256); python ints mathematical (modelled as 32-bit vectors with "
+                      "no-overflow obligations); the induction schema over message length that combines the per-byte lemmas; the pyvc VC generator.",
+        "design_ref": "DESIGN.md section 5 C20",
         "replay": [PY, "native/replay_crc7.py"],
         "standins": {"quick": {"bounded: real crc7 vs native bit-serial reference on all 1-byte, 2704 2-byte and 20000 random messages (<40 bytes) + in-place mutated buffer": [PY, "native/replay_crc7.py"]}},
         "explanation": "crc7() is verified against the recursive bit-serial spec crc_spec by a loop invariant (unbounded in the "
